@@ -248,6 +248,7 @@ PROPS["C17"] = {
     "assumptions": ["validity is a function of the resource version (UID, generation), as in a cluster", "the fatal flag of the notify callback (process exit) is never raised"],
     "units": [
         {"name": "direct", "pkg": "./pkg/agent", "run": "^TestVerifC17Direct$", "replay_run": "^TestVerifC17DirectReplay$", "q": 30000, "t": 4800000},
+        {"name": "event-loop", "pkg": "./pkg/agent", "go": "go1.26.8", "run": "^TestVerifC17Loop$", "replay_run": "^TestVerifC17LoopReplay$", "q": 1500, "t": 240000},
     ],
     "floor_q": 1000, "floor_t": 50000,
 }
